@@ -42,6 +42,39 @@ pub fn install_panic_counter(quiet: bool) {
     }));
 }
 
+/// A tracing subscriber that enables every level and formats every field, then throws the text away:
+/// what the server would do with its most verbose logging configuration. Log statements format
+/// untrusted values (a state entry read from a tampered journal, a frame, a recovered segment) and a
+/// `Display` implementation that panics on such a value takes the server down just the same.
+struct FormatEverything;
+
+impl tracing::Subscriber for FormatEverything {
+    fn enabled(&self, _: &tracing::Metadata<'_>) -> bool {
+        true
+    }
+    fn new_span(&self, _: &tracing::span::Attributes<'_>) -> tracing::span::Id {
+        tracing::span::Id::from_u64(1)
+    }
+    fn record(&self, _: &tracing::span::Id, _: &tracing::span::Record<'_>) {}
+    fn record_follows_from(&self, _: &tracing::span::Id, _: &tracing::span::Id) {}
+    fn event(&self, event: &tracing::Event<'_>) {
+        struct V;
+        impl tracing::field::Visit for V {
+            fn record_debug(&mut self, _: &tracing::field::Field, v: &dyn std::fmt::Debug) {
+                let _ = format!("{v:?}");
+            }
+        }
+        event.record(&mut V);
+    }
+    fn enter(&self, _: &tracing::span::Id) {}
+    fn exit(&self, _: &tracing::span::Id) {}
+}
+
+/// Installs [`FormatEverything`] for this process (once).
+pub fn install_verbose_logging() {
+    let _ = tracing::subscriber::set_global_default(FormatEverything);
+}
+
 thread_local! { static LAST_PANIC: () = (); }
 pub static LAST_PANIC_MSG: std::sync::Mutex<String> = std::sync::Mutex::new(String::new());
 
